@@ -153,7 +153,8 @@ class ScriptedHook : public Engine::PrekillHook {
     long long gen = -1;
     if (auto id = cg.id()) gen = (long long)(*id % 1000000007ULL);
     evEmit(J().str("e", "HookFire").str("hook", id_).num("inv", inv)
-               .raw("p", pathJson(cg.cgroup().relativePath())).num("gen", gen)
+               .raw("p", pathJson(cg.cgroup().relativePath())).raw("pc", pathCharsJson(cg.cgroup().relativePath()))
+               .num("gen", gen)
                .raw("ctx", ctxJson(actx)).num("polls", polls).num("t", vclockNowMs()));
     return std::make_unique<ScriptedInvocation>(inv, id_, polls);
   }
